@@ -17,11 +17,10 @@
 (*    (number + 1 / same, self = hash of the closed round, external = known *)
 (*    final round of another chain, no link decreases - durable and in      *)
 (*    memory), a rejected one leaves the whole observation unchanged.       *)
-(* Known finding C20-1 (when listed in Known): see Rounds.tla.              *)
 (***************************************************************************)
 EXTENDS TraceLib, Rounds
 
-CONSTANTS Mode, Known, NC
+CONSTANTS Mode, NC
 
 VARIABLES l, G, P
 vars == <<l, G, P>>
@@ -54,11 +53,6 @@ SelfOK(o, c, closed) ==
     /\ o.mfinal[c] = FRef(c, closed) /\ o.fnum[c] = closed
     /\ o.finrec[c]
 
-KnownHit(c) ==
-    /\ "C20-1" \in Known
-    /\ KnownFinding_C20_1(ObsG(Ev.obs), c)
-    /\ PrintT(<<"KNOWN-REACHED", "C20-1">>)
-
 Op ==
     /\ IsEvent("Op")
     /\ LET o   == Ev.o
@@ -76,10 +70,6 @@ Op ==
                 \/ /\ Ev.res = "ok"
                    /\ StepOK20(G, o, "ok", o.op = "Start" => SelfOK(obs, c, G.num[c]), G2)
                    /\ obs.mnum[c] = obs.num[c] /\ obs.mext[c] = obs.ext[c]
-                \/ /\ Ev.res = "ok"
-                   /\ KnownHit(c)
-                   /\ (o.op = "Start" => G2.num[c] = G.num[c] + 1 /\ SelfOK(obs, c, G.num[c]))
-                   /\ LinksForward(G, G2, c)
         /\ G' = G2 /\ P' = obs
 
 Next == Reset \/ Op
@@ -88,5 +78,5 @@ Spec == Init /\ [][Next]_vars
 HW == HighWaterOf(l)
 Accepted == TraceAcceptedAt
 
-Inv == \A c \in Chains : KnownFinalOther(G, c, G.ext[c]) \/ ("C20-1" \in Known /\ KnownFinding_C20_1(G, c))
+Inv == \A c \in Chains : KnownFinalOther(G, c, G.ext[c])
 =============================================================================
